@@ -99,3 +99,10 @@ RETURN_KINDS.update({
     "base.Sectionable._get_section_by_path": ("BaseSection",),
     "base.Sectionable.get_property_by_path": ("BaseProperty",),
 })
+
+
+# attributes whose *set* values include falsy ones (reviewed): a truthiness test on them confuses "set to 0 / False" with "unset"
+FALSY_SET_ATTRIBUTES = {
+    "uncertainty": "an uncertainty of 0 is a set value",
+    "dependency_value": "a dependency value of 0 / False is a set value (it is compared with the values of the dependency)",
+}
